@@ -82,3 +82,11 @@ package sync2
 //@ ensures [los-dom] m.Dom == store(old(m.Dom), key, true)
 //@ ensures [los-kept] implies(old(m.Dom[key]), m.Val == old(m.Val) && result0 == old(m.Val[key]))
 //@ ensures [los-stored] implies(!old(m.Dom[key]), m.Val == store(old(m.Val), key, result0))
+
+// Range: a thin wrapper over sync.Map.Range (trusted, A-SYNCMAP; sequential use): the callback is called once for every
+// entry, in an unspecified order, while it returns true. Call sites are verified with the iteration rule.
+//@ func (*Map).Range
+//@ trusted
+//@ iterates f over m.Dom, m.Val
+//@ requires [callback] f != nil
+//@ assigns nothing
